@@ -93,12 +93,12 @@ static void explore(Result& R) {
     for (int t1 = 0; t1 < 5; t1++) for (int t2 = 0; t2 < 5; t2++) for (int h1 : {0, 2}) for (int h2 : {0, 3}) for (int x : {0, 2, 5}) for (int w = 0; w < 2; w++) all.push_back({{{1, t1, h1}, {2, t2, h2}}, x, w});
     for (int m1 = 0; m1 < nm; m1++) for (int m2 = 0; m2 < nm; m2++) for (int m3 : {0, 3, 5}) for (int h : {0, 2}) { if (!th && (m1 + m2) % 2) continue; all.push_back({{{m1, 0, h}, {m2, 1, 0}, {m3, 3, h}}, 4, 0}); all.push_back({{{m1, 2, 0}, {m2, 4, h}, {m3, 0, 3}}, 0, 1}); }
     long unit = 0; for (const Case& c : all) { if (!R.args.mine(unit++)) continue; if (R.out_of_time(0.9)) { R.cap("deadline"); break; } cases++;
-        std::string dg; g_digest = &dg; std::string e = run_case(c, &with_free); g_digest = nullptr; R.mix(dg + e);
+        std::string dg; g_digest = &dg; std::string e = run_case(c, &with_free); g_digest = nullptr; R.mix(dg + e); R.distinct_case(dg);
         if (!e.empty()) R.violation(clause_of(e) + "|" + (c.writer ? "write_cell_data_file" : "mesh_writer::write") + "|cells=" + std::to_string(c.cells.size()), e + " [" + case_json(c) + "]", "case=" + case_text(c) + "\n");
         if (cases % 400 == 1) R.sample(case_json(c)); }
     std::filesystem::remove_all(g_dir);
     R["evaluations"] = cases; R["transitions"] = cases; R["states"] = cases; R["distinct_nontrivial"] = cases; R["traces_validated_against_impl"] = cases; R["cells_written_with_free_slots"] = with_free;
-    R.strings["rule"] = "a case = (population of 1-3 cells: mesh, cell type, remeshing history leaving free slots or not) x coordinate transform (x1, point reflection, x1e-6, x1e5, each also shifted to mixed signs) x writer entry point; the file is checked by an independent tokenizer (every declared count against contents), read back by the real mesh_reader (cells, triangles, coordinates to %.4e, cell types) and loaded by the real simulation_initializer (initial triangulation off) whose cells must pass the mesh oracle";
+    R.strings["rule"] = "distinct_nontrivial = number of DISTINCT cell-data files written (hashed file text; cases that differ only in something the file does not record produce the same file); a case = (population of 1-3 cells: mesh, cell type, remeshing history leaving free slots or not) x coordinate transform (x1, point reflection, x1e-6, x1e5, each also shifted to mixed signs) x writer entry point; the file is checked by an independent tokenizer (every declared count against contents), read back by the real mesh_reader (cells, triangles, coordinates to %.4e, cell types) and loaded by the real simulation_initializer (initial triangulation off) whose cells must pass the mesh oracle";
     R.assumptions = {"expected renumbering: nodes by rank among live nodes, triangles in slot order (what compaction does)", "coordinate tolerance half a unit in the 4th decimal of the scientific notation", "face-data file: only the geometry section counts are validated"};
 }
 static int replay(const Replay& rp, Result& R) { setup(); Case c = case_parse(rp.get("case")); std::string e1 = run_case(c), e2 = run_case(c); std::filesystem::remove_all(g_dir); if (e1 != e2) { printf("replay diverged\n"); return 0; } printf("%s\n%s\n", case_json(c).c_str(), e1.c_str()); if (!e1.empty()) { R.violation(clause_of(e1), e1, ""); return 1; } return 0; }
